@@ -148,6 +148,19 @@ def check(replay=None):
     wd = vlib.workdir()
     vlib.build_harness()
     rng = random.Random(vlib.seed() * 31 + 13)
+    # A: the design model (apply = write, sync, acknowledge; roll-over in five steps; crash between any two steps
+    # in persistence models a and b; reopen) with its negative controls
+    inv = ["TypeOK", "Durable", "NothingInvented", "InSync", "ChainOnce", "ChainLinks"]
+    bounds = {"MaxEdits": 3, "MaxRoll": 2, "MaxCrash": 2} if vlib.tier() == "quick" else {"MaxEdits": 4, "MaxRoll": 3, "MaxCrash": 3}
+    r = vlib.run_tlc("Mani", vlib.cfg_text(constants=dict(bounds, Dev=set()), invariants=inv), wd, "mani_mc", workers=8, timeout=3000)
+    if not r.ok():
+        raise vlib.ToolError(f"TLC Mani: violated={r.violated} error={r.error} ({r.out})")
+    out.add_tlc("Mani_design_model", r, bounds)
+    for dev, want in (("RelinkAfterCrash", "ChainOnce"), ("AckBeforeSync", "Durable")):
+        rn = vlib.run_tlc("Mani", vlib.cfg_text(constants={"MaxEdits": 3, "MaxRoll": 2, "MaxCrash": 2, "Dev": {dev}}, invariants=inv), wd, f"mani_neg_{dev}", workers=4, timeout=900)
+        if rn.violated != want:
+            raise vlib.ToolError(f"negative control failed: Mani.tla with {dev} should violate {want}, got {rn.violated} / {rn.error}")
+    out.extra["negative_controls"] = ["RelinkAfterCrash -> ChainOnce (the interrupted roll-over found and fixed as adc7a41)", "AckBeforeSync -> Durable"]
     if replay:
         docs = [json.load(open(replay))["doc"]]
     else:
